@@ -703,6 +703,7 @@ Definition host_sig (h : nat) : option (nat * bool * nat) :=
   | 5 => Some (1, false, 0)      (* hnone(x) : logs [x], no result *)
   | 6 => Some (3, false, 1)      (* hfix3(a, b, c) c : logs [a, b, c] *)
   | 7 => Some (0, false, 1)      (* hzero() int64 7 : logs [] *)
+  | 8 => Some (1, false, 1)      (* hid(x) x : logs nothing *)
   | _ => None
   end.
 
@@ -720,6 +721,7 @@ Definition host_call (h : nat) (args : list value) (s : rstate) : outcome :=
   | 5, [x] => Ok (set_rv (set_st s (log st [x])) rv_nil)
   | 6, [a; b; c] => ret c (set_st s (log st [a; b; c]))
   | 7, [] => ret (VInt 7) (set_st s (log st []))
+  | 8, [x] => ret x s
   | _, _ => Abort (APanic "host called with a wrong number of arguments")
   end.
 
